@@ -62,6 +62,19 @@ class BlockInterleavedLinearOperator(BlockLinearOperator):
         block_diag = self.base_linear_op._diagonal()
         return block_diag.mT.contiguous().view(*block_diag.shape[:-2], -1)
 
+    def _getitem_block_aligned(self, row_start: int, row_end: int, col_start: int, col_end: int, batch_indices):
+        # rows/columns are ordered (index within block, block number): a range aligned with num_blocks selects
+        # the same rows/columns of every block
+        num_blocks = self.num_blocks
+        if (row_start % num_blocks) or (col_start % num_blocks) or (row_end % num_blocks) or (col_end % num_blocks):
+            return None
+        if (row_end - row_start) != (col_end - col_start):
+            return None  # the blocks have to stay square
+        row_index = slice(row_start // num_blocks, row_end // num_blocks, None)
+        col_index = slice(col_start // num_blocks, col_end // num_blocks, None)
+        new_base_linear_op = self.base_linear_op._getitem(row_index, col_index, *batch_indices, slice(None, None, None))
+        return self.__class__(new_base_linear_op, block_dim=-3)
+
     def _get_indices(self, row_index: IndexType, col_index: IndexType, *batch_indices: IndexType) -> torch.Tensor:
         # Figure out what block the row/column indices belong to
         row_index_block = row_index.fmod(self.base_linear_op.size(-3))
